@@ -137,6 +137,26 @@ TRIGGERS = {
  "Y-C17": ("C17", "ContractWrapper::reply returns Ok(default) when the contract has no reply entry point: a failing module under reply_on Error/Always is reported as handled by a handler that does not exist"),
  "Y-C18": ("C18", "addr_make hashes input.trim(): names differing only by surrounding white space give the same address"),
  "Y-C19": ("C19", "a wasmd-style nesting limit for smart queries keeps its depth in a thread-local and leaks one level whenever the address text fails validation: after ten such queries on a thread every App's smart queries fail"),
+ "Z-C01": ("C01", "execute_submsg's tail rewritten as and_then(success reply).or_else(error reply): an error raised while handling the SUCCESS reply is handed to the same reply as Err and can be absorbed (S-C02 again, written against C01)"),
+ "Z-C02": ("C02", "verify_response rejects a contract response that carries an Instantiate sub-message with an empty label: the failure is raised in the dispatching contract's own call, so reply_on Error/Always cannot absorb it"),
+ "Z-C03": ("C03", "a failed sub-message is not handed to reply when its error is one of the crate's typed Errors (malformed response, duplicate salted address, unregistered code id)"),
+ "Z-C04": ("C04", "sudo results go through the same tail as migrate: their data is wrapped in the execute-response encoding"),
+ "Z-C05": ("C05", "WasmMsg::Execute normalises the callee address but transfers the attached funds to the raw string: a callee named by the upper-case spelling runs without the funds on its account"),
+ "Z-C06": ("C06", "MergeOverlay: a pending Set over a base key no longer hides the base record in range (only tombstones do): the key is listed twice"),
+ "Z-C07": ("C07", "multilevel views are built as new(first segment) + nested(rest) with b\"\" for a missing first segment: the zero-segment view gets the prefix 00 00 instead of the whole store"),
+ "Z-C08": ("C08", "range_with_prefix counts the trailing 0xFF bytes of the START key instead of the namespace when no end is given: a contract iterating from a start bound ending in 0xFF gets nothing, other contracts' entries, or a panic"),
+ "Z-C09": ("C09", "Z-C06's change seen through the bank: a supply query issued by a contract after a balance was rewritten in the same transaction counts that account twice"),
+ "Z-C10": ("C10", "Z-C06's change seen through iterating queries inside a transaction"),
+ "Z-C11": ("C11", "register_contract canonicalises the creator also for unsalted instantiations: a stored code cannot be instantiated by a creator the Api cannot canonicalise (a plain name, a foreign prefix)"),
+ "Z-C12": ("C12", "update_admin flattens a new admin that fails validation to None: UpdateAdmin by the admin with a malformed address clears the admin and reports success"),
+ "Z-C13": ("C13", "verify_attributes / verify_response trim with trim_ascii(): keys and types blanked by non-ASCII white space (U+00A0, U+2003, U+0085) or U+000B are accepted"),
+ "Z-C14": ("C14", "App::set_block runs the unbonding queue before adopting the new block: an unbonding that matures by a set_block is paid one block update late"),
+ "Z-C15": ("C15", "share_of_rewards uses the whole-token part of the stake: the fractional part of a stake left by a partial slash earns nothing (within the statement's tolerance unless held for decades; dropping sub-token remainders is allowed by C16, so not asserted)"),
+ "Z-C16": ("C16", "slash returns Ok early for a fraction of exactly zero, before the validator's existence is checked: slashing an unknown validator by 0 is accepted"),
+ "Z-C17": ("C17", "the router's arm for CosmosMsg::Any is compiled only with stargate AND cosmwasm_2_0: in a build with cosmwasm_2_0 but without stargate, Any messages never reach the configured handler (a feature set the checks do not build)"),
+ "Z-C18": ("C18", "addr_canonicalize decodes with bech32::decode, which accepts either checksum variant: the other variant's addresses are canonicalised"),
+ "Z-C19": ("C19", "the 'entry point missing' errors of ContractWrapper include a Debug rendering of the wrapper with the heap addresses of its boxed closures: the error text handed to a reply differs between two Apps"),
+ "Z-C20": ("C20", "customize_msg's arm for the deprecated CosmosMsg::Stargate is compiled out when cosmwasm_2_0 is on: an entry point supplied through an *_empty step that returns such a message panics"),
  "Y-C20": ("C20", "customize_response sets data with unwrap_or_default (W-C04 again, written against C20): entry points supplied through the *_empty steps return Some(empty) where the supplied function returned no data"),
  "Y-C10": ("C10", "StorageTransaction::set returns early when the backing store already holds the value (T-C06 / U-C01 again, written against C10)"),
  "X-C20": ("C20", "AppBuilder::with_block copies chain_id only when it is non-empty: a supplied block with an empty chain id keeps the default one"),
@@ -150,6 +170,9 @@ ATTRIBUTION = {
  "T-C15": "written against the tree before the C15 repair; the patch no longer applies. The equivalent change against the repaired code is mutants/m15-subsecond-remainder-dropped.diff, which C15 reports",
  "V-C10": "an atomicity defect (effects of a failed wasm_sudo tree are committed; queries faithfully show that committed state): reported by C01, C13 and C17, not by C10 (DESIGN R1.6)",
  "V-C20": "outside the statement's quantifier (no subset / permutation of steps repeats a step) and the statement does not say which of two supplied checksums is kept: deliberately not asserted (DESIGN R1.6)",
+ "Z-C01": "S-C02's change again (a failing success-reply absorbed by the error reply): reported by C02 (`AbsorbedFailure`) and C03; the first divergence is in who is replied to, which is their clause, not C01's",
+ "Z-C15": "within the interval the statement allows once C16's 'sub-token remainders may additionally be dropped' is taken into account: the lower bound is computed from the whole-token stake; not asserted (DESIGN R1.10)",
+ "Z-C17": "needs a build of the subject with cosmwasm_2_0 but without stargate; the checks build one feature set (staking, stargate, cosmwasm_2_2): out of reach, stated in DESIGN section 7",
  "W-C10": "a reward-arithmetic defect (V-C15 again): reported by C15 and C16; the query itself is pure and repeatable, so C10 stays silent (DESIGN R1.7)",
 }
 
@@ -157,7 +180,7 @@ def main(logs):
     res = {}
     for lg in logs:
         for line in open(lg):
-            m = re.match(r"^([STUVWXY]-C\d+) (\S+)(?: (.*))?$", line.strip())
+            m = re.match(r"^([STUVWXYZ]-C\d+) (\S+)(?: (.*))?$", line.strip())
             if not m: continue
             sid, key, rest = m.group(1), m.group(2), m.group(3) or ""
             r = res.setdefault(sid, {"checks": {}, "verified": {}})
@@ -197,7 +220,7 @@ def main(logs):
             own = "no - " + ATTRIBUTION[sid]
         rows.append((sid, prop, own, ", ".join(detected), trig))
     with open(os.path.join(ROOT, "seeded", "README.md"), "w") as f:
-        f.write("# Seeded property-breaking changes (from sub-agents)\n\nS-* = round 1, T-* = round 2, U-* = round 3, V-* = round 4, W-* = round 5, X-* = round 6, Y-* = round 7 (from round 2 on the sub-agent was told the earlier changes as 'already taken'). Each directory holds `patch.diff` (apply with `git -C /repo apply`), the demonstration test `seed_demo.rs`, the sub-agent's `NOTES.md` and `meta.json`.\nAll were re-verified with `tools/selftest.sh` on a scratch copy of /repo: the baseline suite passes with the change, the demonstration passes without and fails with it.\n\n| seed | breaks | own check detects | all quick checks that fail | needs |\n|---|---|---|---|---|\n")
+        f.write("# Seeded property-breaking changes (from sub-agents)\n\nS-* = round 1, T-* = round 2, U-* = round 3, V-* = round 4, W-* = round 5, X-* = round 6, Y-* = round 7, Z-* = round 8 (from round 2 on the sub-agent was told the earlier changes as 'already taken'). Each directory holds `patch.diff` (apply with `git -C /repo apply`), the demonstration test `seed_demo.rs`, the sub-agent's `NOTES.md` and `meta.json`.\nAll were re-verified with `tools/selftest.sh` on a scratch copy of /repo: the baseline suite passes with the change, the demonstration passes without and fails with it.\n\n| seed | breaks | own check detects | all quick checks that fail | needs |\n|---|---|---|---|---|\n")
         for row in rows:
             f.write("| %s | %s | %s | %s | %s |\n" % row)
     print("\n".join("%s %s own=%s all=[%s]" % r[:4] for r in rows))
